@@ -38,11 +38,11 @@ const nRows = 120
 // src describes the relation a query template reads: the (possibly faulty) table, its column
 // names, and the boolean predicate that carries an expression fault (or a harmless predicate).
 type src struct {
-	table     string // file name in FROM
-	id, g, s  string // column names: unique id, small group key, string
-	hasTS     bool   // has a Time column "ts"
-	ok        string // clean 6-row table with columns id, g, s of matching types (the other join side)
-	pred      func(alias string) string
+	table    string // file name in FROM
+	id, g, s string // column names: unique id, small group key, string
+	hasTS    bool   // has a Time column "ts"
+	ok       string // clean 6-row table with columns id, g, s of matching types (the other join side)
+	pred     func(alias string) string
 	// consumer faults: the failing expression is evaluated over the OUTPUT of an operator. fire tells
 	// whether the guard value exists (faulted run) or not (control); lit renders a value of the id type.
 	consumer bool
@@ -624,7 +624,7 @@ type acase struct {
 	opt     bool
 	control bool
 	ctl     string // key of the control twin
-	self    bool // self-test: reads the fault-free input although judged as faulted
+	self    bool   // self-test: reads the fault-free input although judged as faulted
 	dir     string
 	sql     string
 	res     cli.Result
